@@ -213,6 +213,34 @@ func genHistory(r *hx.Rand, idx int, tier, mode string) *hx.Case {
 		"mem": t.mem, "tfs": t.tfs, "l0": t.l0, "sls": t.sls}, Ops: ops}
 }
 
+// two lives of the job over the same savepoint storage: life 1 takes savepoint id 1 with n operators, the working
+// storage is wiped, a fresh life with the same operator names and DIFFERENT state takes savepoint id 1 again into the
+// same location, wipe, restore from it: the state must be life 2's
+func genTwoLives(r *hx.Rand, idx int) *hx.Case {
+	nkeys := r.Range(3, 6)
+	n := r.Range(1, 3)
+	t := genTune(r)
+	var ops []json.RawMessage
+	var val, wm uint64
+	genEvents(r, &ops, nkeys, r.Range(4, 15), &val, &wm, wm)
+	ops = append(ops, hx.Op(op{Op: "save", N: n, Perm: genPerm(r, n), Fold: r.Chance(1, 3)}))
+	ops = append(ops, hx.Op(op{Op: "fresh", N: n}))
+	wm = 0
+	val += 100
+	genEvents(r, &ops, nkeys, r.Range(4, 15), &val, &wm, 0)
+	n2 := n
+	if r.Chance(1, 3) {
+		n2 = r.Range(1, 3)
+	}
+	ops = append(ops, hx.Op(op{Op: "save", N: n2, Perm: genPerm(r, n), Fold: r.Chance(1, 3)}))
+	for k := 0; k < nkeys; k++ {
+		ops = append(ops, hx.Op(op{Op: "ev", Key: uint64(k)}))
+	}
+	ops = append(ops, hx.Op(op{Op: "wm", T: 1000}))
+	return &hx.Case{Name: fmt.Sprintf("lives-%d", idx), Params: map[string]any{"kind": "history", "mode": "c14", "kgc": 8, "n0": n, "nkeys": nkeys,
+		"mem": t.mem, "tfs": t.tfs, "l0": t.l0, "sls": t.sls}, Ops: ops}
+}
+
 func (eng) Generate(mode, tier string, r *hx.Rand) []*hx.Case {
 	var cs []*hx.Case
 	if mode == "c14" {
@@ -222,6 +250,16 @@ func (eng) Generate(mode, tier string, r *hx.Rand) []*hx.Case {
 		}
 		for i := 0; i < nh; i++ {
 			cs = append(cs, genHistory(r.Fork(), i, tier, mode))
+		}
+		nt, nf := 40, 10
+		if tier == "thorough" {
+			nt, nf = 400, 80
+		}
+		for i := 0; i < nt; i++ {
+			cs = append(cs, genTicks(r.Fork(), i))
+		}
+		for i := 0; i < nf; i++ {
+			cs = append(cs, genTwoLives(r.Fork(), i))
 		}
 		return cs
 	}
